@@ -113,15 +113,17 @@ template<typename T> static Bytes fi_image(Rng& r, bool T_, int kind) {
 
 // ------------------------------------------------------------------ count-min
 typedef count_min_sketch<uint64_t> cm_sketch;
+static const uint64_t CM_BIG = 1u << 20;   // counters; images of this unit have at most 320
 static std::string cm_readout(const cm_sketch& s) {
   std::string o;
   o += "nh=" + std::to_string(s.get_num_hashes()) + " nb=" + std::to_string(s.get_num_buckets()) + " seed=" + std::to_string(s.get_seed()) +
        " total=" + std::to_string(s.get_total_weight()) + " empty=" + std::to_string(s.is_empty()) + " relerr=" + num(s.get_relative_error()) +
        " sersize=" + std::to_string(s.get_serialized_size_bytes());
+  // a corrupted bucket count can legitimately describe a table of up to 2^30 counters: print the first 4096, hash the rest
   o += " A:";
-  uint64_t cnt = 0;
-  for (auto it = s.begin(); it != s.end(); ++it) { o += std::to_string(*it) + ","; ++cnt; }
-  o += " iter=" + std::to_string(cnt);
+  uint64_t cnt = 0, h = 0;
+  for (auto it = s.begin(); it != s.end(); ++it) { if (cnt < 4096) o += std::to_string(*it) + ","; else h = h * 0x9e3779b97f4a7c15ULL + *it; ++cnt; }
+  o += " iter=" + std::to_string(cnt) + " h=" + std::to_string(h);
   o += " P:";
   for (uint64_t j = 0; j < 24; ++j) o += std::to_string(s.get_estimate(j)) + "/" + std::to_string(s.get_lower_bound(j)) + "/" + std::to_string(s.get_upper_bound(j)) + ",";
   const std::string strs[3] = {"a", "bb", ""};
@@ -129,7 +131,7 @@ static std::string cm_readout(const cm_sketch& s) {
   o += std::to_string(s.get_estimate(static_cast<int64_t>(-3))) + ",";
   o += " str=" + std::to_string(s.to_string().size());
   o += " ser=" + hexv(s.serialize());
-  std::ostringstream os; s.serialize(os); o += " sers=" + std::to_string(os.str().size());
+  if (cnt <= CM_BIG) { std::ostringstream os; s.serialize(os); o += " sers=" + std::to_string(os.str().size()); }
   return o;
 }
 static void cm_use(cm_sketch& s) {
@@ -138,6 +140,7 @@ static void cm_use(cm_sketch& s) {
   cm_sketch fresh(s.get_num_hashes(), s.get_num_buckets(), s.get_seed());
   for (uint64_t i = 0; i < 30; ++i) fresh.update(i, 2);
   s.merge(fresh);
+  if (static_cast<uint64_t>(s.get_num_hashes()) * s.get_num_buckets() > CM_BIG) { (void)s.get_estimate(static_cast<uint64_t>(3)); return; }   // keep the harness cost bounded
   fresh.merge(s);
   (void)cm_readout(s);
   (void)cm_readout(fresh);
@@ -163,16 +166,21 @@ static Bytes cm_image(Rng& r, bool T_, int kind) {
 }
 
 // ------------------------------------------------------------------ bloom
+static const uint64_t BLOOM_BIG = 1u << 24;   // bits; images of this unit have at most 4096.  An (empty) image may legitimately
+                                               // describe a filter of up to 2^34 bits: keep the harness cost bounded for those
 static std::string bloom_readout(bloom_filter& f) {
   std::string o;
+  const bool big = f.get_capacity() > BLOOM_BIG;
   o += "cap=" + std::to_string(f.get_capacity()) + " nh=" + std::to_string(f.get_num_hashes()) + " seed=" + std::to_string(f.get_seed()) +
        " empty=" + std::to_string(f.is_empty()) + " ro=" + std::to_string(f.is_read_only()) + " wrapped=" + std::to_string(f.is_wrapped()) +
        " owned=" + std::to_string(f.is_memory_owned()) + " sersize=" + std::to_string(f.get_serialized_size_bytes());
-  auto img = f.serialize();
-  o += " ser=" + hexv(img);
-  std::ostringstream os; f.serialize(os);
-  const std::string ss = os.str();
-  o += " sers=" + std::to_string(ss.size()) + (ss.size() == img.size() && (ss.empty() || memcmp(ss.data(), img.data(), ss.size()) == 0) ? "" : " STREAM-DIFFERS");
+  if (!big) {
+    auto img = f.serialize();
+    o += " ser=" + hexv(img);
+    std::ostringstream os; f.serialize(os);
+    const std::string ss = os.str();
+    o += " sers=" + std::to_string(ss.size()) + (ss.size() == img.size() && (ss.empty() || memcmp(ss.data(), img.data(), ss.size()) == 0) ? "" : " STREAM-DIFFERS");
+  }
   o += " Q:";
   for (uint64_t j = 0; j < 48; ++j) o += f.query(j) ? '1' : '0';
   for (int64_t j = -4; j < 0; ++j) o += f.query(j) ? '1' : '0';
@@ -181,12 +189,12 @@ static std::string bloom_readout(bloom_filter& f) {
   o += f.query(1.5) ? '1' : '0';
   const auto ts = f.to_string(false);
   o += " str=" + std::string(ts.begin(), ts.end());
-  {
+  if (!big) {
     bloom_filter c(f);   // get_bits_used() caches the count: done on a copy so that the read-out does not change the state read next
     o += " bits=" + std::to_string(c.get_bits_used());
   }
   o += " bits2=" + std::to_string(f.get_bits_used());
-  o += " ser2=" + hexv(f.serialize());
+  if (!big) o += " ser2=" + hexv(f.serialize());
   return o;
 }
 static void bloom_fill(bloom_filter& f, uint64_t base, int n) {
@@ -209,6 +217,7 @@ static void bloom_use(bloom_filter& f) {
     bloom_fill(fresh, 1000, 20);
     fresh.union_with(f);
     (void)bloom_readout(fresh);
+    if (f.get_capacity() > BLOOM_BIG) return;
     fresh.intersect(f);
     (void)bloom_readout(fresh);
     (void)bloom_readout(f);
@@ -220,6 +229,7 @@ static void bloom_use(bloom_filter& f) {
   bloom_fill(fresh, 1000, 20);
   f.union_with(fresh);
   (void)bloom_readout(f);
+  if (f.get_capacity() > BLOOM_BIG) return;
   f.intersect(fresh);
   (void)bloom_readout(f);
   f.invert();
@@ -257,7 +267,7 @@ static Bytes bloom_image(Rng& r, bool T_, int kind) {
       const uint64_t m = cap / 2 + r.below(cap);
       for (uint64_t i = 0; i < m; ++i) f.update(base + i);
       if (r.coin()) (void)f.get_bits_used();   // stored count instead of the dirty marker
-      if (r.chance(0.2)) f.invert();
+      if (r.chance(0.2)) { f.invert(); if (f.is_empty()) f.invert(); }   // an all-ones filter inverts to an empty one: that is kind "empty"
       break;
     }
   }
